@@ -235,6 +235,7 @@ pub fn root_case(root: &Root, script: Vec<Vec<f64>>) -> PlanCase {
         empty_starts: false,
         query_cap: 400_000,
         world2: None,
+        space2: None,
     }
 }
 
